@@ -3,7 +3,11 @@ use query_engine::distributed::splits::{assign_lpt, Split, SplitSet};
 use serde_json::{json, Value};
 use std::path::PathBuf;
 
-pub fn case(v: &Value) -> Value {
+fn main() {
+    qe_verif_harness::run_lines(case)
+}
+
+fn case(v: &Value) -> Value {
     let nodes = v["nodes"].as_u64().unwrap() as usize;
     let mut splits = Vec::new();
     let mut total_bytes = 0u64;
